@@ -144,6 +144,8 @@ theorem decode_checksum {bs : Bytes} {tbl : Tbl} {raw : Bytes} {m : Msg} {n : Na
   | some vi =>
     rw [hvi] at h
     dsimp only at h
+    split at h
+    · cases h
     obtain ⟨b, hb, _⟩ := drop_of_findSub hvi
     obtain ⟨f0, f1, rest, t0, v1, bl, s, hf, hrest, _, _, _, _, _, _, hloop, hp, _, he⟩ := decodeFields_msg h
     subst he
@@ -185,5 +187,35 @@ theorem decode_checksum {bs : Bytes} {tbl : Tbl} {raw : Bytes} {m : Msg} {n : Na
         · right
           rw [hF, join_append SOH hFne (by simp)] at h0
           rw [h0]; simp [join]
+
+/-- a returned frame that contains `SOH 10=` ends with SOH (the decoder waits for the SOH that
+terminates the CheckSum field) -/
+theorem decode_msg_ends_soh {bs : Bytes} {tbl : Tbl} {raw : Bytes} {m : Msg} {n : Nat} {enc : Bytes}
+    (h : decode bs tbl raw = .msg m n enc) {a b : Bytes} (hocc : enc = a ++ (cksumPat ++ b)) :
+    ∃ x, enc = x ++ [SOH] := by
+  rw [decode_eq] at h
+  cases hvi : findSub marker raw with
+  | none => rw [hvi] at h; cases h
+  | some vi =>
+    rw [hvi] at h
+    dsimp only at h
+    split at h
+    · cases h
+    · rename_i hopen
+      obtain ⟨_, _, _, _, _, _, _, _, _, _, _, _, _, _, _, _, _, _, he⟩ := decodeFields_msg h
+      generalize raw.drop vi = msg at *
+      have hmsg : msg = a ++ (cksumPat ++ (b ++ msg.drop (cutOf msg))) := by
+        have := List.take_append_drop (cutOf msg) msg
+        rw [← he, hocc] at this
+        simpa only [List.append_assoc] using this.symm
+      cases hci : findSub cksumPat msg with
+      | none => exact absurd hmsg (findSub_none (by decide) hci _ _)
+      | some ci =>
+        cases hc : closedAtOf msg with
+        | none => exfalso; apply hopen; simp [ckOpen, hci, hc]
+        | some c =>
+          have hcut : cutOf msg = c := by unfold cutOf; rw [hc, Option.getD_some]
+          rw [he, hcut]
+          exact closedAtOf_take_ends hc
 
 end AsyncFix.Model.Codec
